@@ -1448,9 +1448,13 @@ def xsd_schema_check(file_path, directory_file, xsd_file):
 def test_for_missing_files(not_found_paths, root_path, ignore_spec: MHLIgnoreSpec = MHLIgnoreSpec()):
     ignore_path_spec = ignore_spec.get_path_spec()
     # update to exclude our ignored files
-    not_found_paths = [
-        x for x in not_found_paths if not ignore_path_spec.match_file(os.path.relpath(x, root_path))
-    ]
+    # a path is ignored if it or one of its parent folders matches (the traversal does not descend into ignored
+    # folders, so a pattern that re-includes something below an ignored folder has no effect there either)
+    def is_ignored(path):
+        parts = os.path.relpath(path, root_path).split(os.sep)
+        return any(ignore_path_spec.match_file(os.sep.join(parts[: i + 1])) for i in range(len(parts)))
+
+    not_found_paths = [x for x in not_found_paths if not is_ignored(x)]
     if len(not_found_paths) == 0:
         return None
     # test our not_found_paths against our ignore spec to ensure these weren't explicitly ignored.
